@@ -159,7 +159,11 @@ func w9WebSocketDetect(p *model.Prog, r *report.Result, rule string) {
 	r.Rule(rule, "logic.HttpServerHandler.ServeSubSession reads Sec-WebSocket-Key (the block that marks the session as WebSocket) only behind both tests - Connection contains Upgrade, and Upgrade == websocket: a plain HTTP-FLV request that offers another upgrade (h2c) gets a plain FLV body, not WebSocket frames")
 	fn := p.Method("pkg/logic", "HttpServerHandler", "ServeSubSession")
 	n := 0
-	for _, ci := range model.AllCalls(fn) {
+	var gets []ssa.CallInstruction
+	for _, g := range model.StaticGroup(fn, 1) { // the detection may live in a helper of the handler
+		gets = append(gets, model.AllCalls(g)...)
+	}
+	for _, ci := range gets {
 		o := model.CalleeObj(ci.Common())
 		if o == nil || o.Name() != "Get" || len(ci.Common().Args) != 2 {
 			continue
